@@ -87,26 +87,19 @@ is the counting spec: the `N`-th `matched` callback if `A = 0`, else the `A`-th 
 or an after-context line. -/
 
 open RgVerif.MaxCount in
-/-- **C16, match limit**: with the printers' limit `N` as the sink, the sink sees exactly the uninterrupted
-stream up to and including the callback at which the counting spec says the limit (plus its `A` trailing
-lines) is exhausted, then one `finish`; and the whole stream if that point is never reached. The search
-returns `Ok`. (`hE`, `hnb`: the uninterrupted stream starts with its only `begin` — true of every stream equal
-to the grep model, `grepSpecLines_shape`.) -/
-theorem C16_maxcount (cfg : Config) (m : MatcherI) (inp : Bytes) (N : Nat) (rest : List Event)
-    (hE : (sliceByLine cfg m allCont inp).events = Event.begin :: rest) (hnb : NoBegin rest) :
+/-- a sink that is a deterministic function of the callbacks it has seen, given by its answers `as` along the
+uninterrupted stream: it is shown the stream up to its first refusal, then one `finish` — or the whole stream -/
+theorem C16_answers (cfg : Config) (m : MatcherI) (inp : Bytes) (as : List Bool) :
     let E := (sliceByLine cfg m allCont inp).events
-    let R := sliceByLine cfg m (maxCountScript (some N) cfg.afterContext E) inp
+    let R := sliceByLine cfg m (scriptOf as) inp
     R.result = .ok () ∧
-    match quitIndex N cfg.afterContext E with
+    match firstFalse 0 as with
     | some k => k + 1 < E.length → ∃ bc bo, R.events = E.take (k + 1) ++ [Event.finish bc bo]
     | none => R.events = E := by
   intro E R
-  have hEE : E = Event.begin :: rest := hE
-  cases hq : quitIndex N cfg.afterContext E with
+  cases hq : firstFalse 0 as with
   | none =>
-    have hall : maxCountScript (some N) cfg.afterContext E = allCont := by
-      rw [hEE] at hq ⊢; exact maxCount_never hnb hq
-    have hR : R = sliceByLine cfg m allCont inp := by show sliceByLine cfg m _ inp = _; rw [hall]
+    have hR : R = sliceByLine cfg m allCont inp := by show sliceByLine cfg m _ inp = _; rw [scriptOf_never hq]
     refine ⟨?_, ?_⟩
     · rw [hR]
       have h0 : FirstStop (fun i => if i = 0 then Resp.stop else Resp.cont) 0 :=
@@ -114,9 +107,7 @@ theorem C16_maxcount (cfg : Config) (m : MatcherI) (inp : Bytes) (N : Nat) (rest
       exact (C16_stop cfg m inp _ 0 h0).1
     · simp only; rw [hR]
   | some k =>
-    obtain ⟨hfs, hstop⟩ : FirstStop (maxCountScript (some N) cfg.afterContext E) k ∧
-        maxCountScript (some N) cfg.afterContext E k = .stop := by
-      rw [hEE] at hq ⊢; exact maxCount_firstStop hnb hq
+    obtain ⟨hfs, hstop⟩ := scriptOf_firstStop hq
     obtain ⟨h0, h1, h2⟩ := C16_stop cfg m inp _ k hfs
     have hres : R.result = .ok () := by
       cases hr : R.result with
@@ -125,16 +116,61 @@ theorem C16_maxcount (cfg : Config) (m : MatcherI) (inp : Bytes) (N : Nat) (rest
         by_cases hlt : k + 1 < E.length
         · have := (h1 hlt).2.1 hr
           rcases this with h | ⟨_, h⟩
-          · exact absurd h (maxCountScript_ne_err _ _ _ _)
-          · exact absurd h (maxCountScript_ne_err _ _ _ _)
+          · exact absurd h (scriptOf_ne_err _ _)
+          · exact absurd h (scriptOf_ne_err _ _)
         · have := ((h2 (by show E.length ≤ k + 1; omega)).2.1 hr).2
-          exact absurd this (maxCountScript_ne_err _ _ _ _)
+          exact absurd this (scriptOf_ne_err _ _)
     refine ⟨hres, ?_⟩
     simp only
     intro hlt
     obtain ⟨⟨bc, bo, he⟩, _⟩ := h1 hlt
     rw [hstop] at he
     exact ⟨bc, bo, by simpa using he⟩
+
+open RgVerif.MaxCount in
+/-- **C16, match limit** (Standard / JSON printer sinks; `A` is the after-context the sink counts, i.e. the
+searcher's): with the printers' limit `N` as the sink, the sink sees exactly the uninterrupted stream up to and
+including the callback at which the counting spec says the limit (plus its `A` trailing lines) is exhausted,
+then one `finish`; and the whole stream if that point is never reached. The search returns `Ok`. (`hE`, `hnb`:
+the uninterrupted stream starts with its only `begin` — true of every stream equal to the grep model,
+`grepSpecLines_shape`.) -/
+theorem C16_maxcount (cfg : Config) (m : MatcherI) (inp : Bytes) (N A : Nat) (rest : List Event)
+    (hE : (sliceByLine cfg m allCont inp).events = Event.begin :: rest) (hnb : NoBegin rest) :
+    let E := (sliceByLine cfg m allCont inp).events
+    let R := sliceByLine cfg m (maxCountScript (some N) A E) inp
+    R.result = .ok () ∧
+    match quitIndex N A E with
+    | some k => k + 1 < E.length → ∃ bc bo, R.events = E.take (k + 1) ++ [Event.finish bc bo]
+    | none => R.events = E := by
+  intro E R
+  have h := C16_answers cfg m inp (answers (some N) A {} E)
+  have hq : firstFalse 0 (answers (some N) A {} E) = quitIndex N A E := by
+    show firstFalse 0 (answers (some N) A {} (sliceByLine cfg m allCont inp).events)
+      = quitIndex N A (sliceByLine cfg m allCont inp).events
+    rw [hE]; exact firstFalse_eq_quitIndex N A rest hnb
+  rw [hq] at h
+  exact h
+
+open RgVerif.MaxCount in
+/-- **C16, match limit of the Summary printer** (`-c`, `--count-matches`, line-oriented search): its sink counts
+`matched` callbacks only and refuses at the `N`-th one, whatever context is configured: the stream it is shown
+is the uninterrupted one up to the `N`-th match, then `finish`. -/
+theorem C16_maxcount_summary (cfg : Config) (m : MatcherI) (inp : Bytes) (N : Nat) (rest : List Event)
+    (hE : (sliceByLine cfg m allCont inp).events = Event.begin :: rest) (hnb : NoBegin rest) :
+    let E := (sliceByLine cfg m allCont inp).events
+    let R := sliceByLine cfg m (summaryScript (some N) E) inp
+    R.result = .ok () ∧
+    match quitIndex N 0 E with
+    | some k => k + 1 < E.length → ∃ bc bo, R.events = E.take (k + 1) ++ [Event.finish bc bo]
+    | none => R.events = E := by
+  intro E R
+  have h := C16_answers cfg m inp (summaryAnswers (some N) 0 E)
+  have hq : firstFalse 0 (summaryAnswers (some N) 0 E) = quitIndex N 0 E := by
+    show firstFalse 0 (summaryAnswers (some N) 0 (sliceByLine cfg m allCont inp).events)
+      = quitIndex N 0 (sliceByLine cfg m allCont inp).events
+    rw [hE]; exact summary_firstFalse_eq_quitIndex N rest hnb
+  rw [hq] at h
+  exact h
 
 /-! ### Non-vacuity -/
 
